@@ -1,9 +1,7 @@
-import re
 import string
-import functools
 from typing import Union
 
-from flamapy.core.models.ast import ASTOperation
+from flamapy.core.models.ast import ASTOperation, Node
 from flamapy.core.transformations import ModelToText
 from flamapy.metamodels.fm_metamodel.models import (
     Constraint,
@@ -139,18 +137,32 @@ class UVLWriter(ModelToText):
         return result
 
     @staticmethod
-    def _substitute_operator(str_constraint: str,
-                             operator: ASTOperation,
-                             new_operator: str) -> str:
-        return re.sub(rf"\b{operator.value}\b", new_operator, str_constraint)
+    def serialize_constraint(ctc: Constraint) -> str:
+        return UVLWriter._serialize_node(ctc.ast.root)
 
     @staticmethod
-    def serialize_constraint(ctc: Constraint) -> str:
-        str_constraint = ctc.ast.pretty_str()
-        return functools.reduce(lambda acc, op: UVLWriter._substitute_operator(acc,
-                                                                               op,
-                                                                               UVL_OPERATORS[op]),
-                                ASTOperation, str_constraint)
+    def _serialize_node(node: Node) -> str:
+        """Serialize the AST directly, so that the names of the features are never mistaken
+        for operators (e.g., a feature called 'OR' or 'x AND y')."""
+        if node.is_term():
+            if isinstance(node.data, (int, float)):
+                return str(node.data)
+            return safename(str(node.data))
+        operator = UVL_OPERATORS[node.data]
+        if node.is_aggregate_op():
+            operands = [UVLWriter._serialize_node(operand)
+                        for operand in (node.left, node.right) if operand is not None]
+            return f'{operator}({", ".join(operands)})'
+        if node.is_unary_op():
+            return f'{operator} {UVLWriter._serialize_operand(node.left)}'
+        left = UVLWriter._serialize_operand(node.left)
+        right = UVLWriter._serialize_operand(node.right)
+        return f'{left} {operator} {right}'
+
+    @staticmethod
+    def _serialize_operand(node: Node) -> str:
+        result = UVLWriter._serialize_node(node)
+        return f'({result})' if node.is_binary_op() else result
 
 
 def safename(name: str) -> str:
